@@ -109,7 +109,7 @@ type KDC struct {
 	NextHop map[string]string
 	Now     func() time.Time
 	TaskID  func() int
-	logs    [64]taskLog
+	logs    [512]taskLog
 	Peers   map[string]*KDC // other realms (for cross-realm key agreement)
 }
 
@@ -246,7 +246,7 @@ func (p *Principal) KeyFor(realm string, et int) (Key, bool) {
 
 func (k *KDC) now() time.Time { return k.Now().UTC().Add(k.Policy.ClockOffset) }
 
-func (k *KDC) log() *taskLog { return &k.logs[k.TaskID()&63] }
+func (k *KDC) log() *taskLog { return &k.logs[k.TaskID()&511] }
 
 // randFor returns the PRNG for the next object this task asks the KDC to create.
 func (k *KDC) randFor(l *taskLog, what string) *core.Rng {
@@ -330,7 +330,6 @@ type Perturb struct {
 	Arg  int64  `json:"arg,omitempty"`
 }
 
-
 // Handle answers one request.  The reply is either a KDC-REP or a KRB-ERROR.
 func (k *KDC) Handle(raw []byte, pt []Perturb) []byte {
 	l := k.log()
@@ -359,14 +358,17 @@ func (k *KDC) Handle(raw []byte, pt []Perturb) []byte {
 }
 
 func (k *KDC) hintsFor(p *Principal, req *rk.KDCReq) []rk.PAData {
+	return k.hintsWith(p, req, k.Policy.Hints)
+}
+
+func (k *KDC) hintsWith(p *Principal, req *rk.KDCReq, hints []string) []rk.PAData {
 	var usable []int
 	for _, e := range req.Etypes {
 		if _, ok := p.KeyFor(k.Realm, int(e)); ok && k.supports(int(e)) {
 			usable = append(usable, int(e))
 		}
 	}
-	hints := k.Policy.Hints
-	if hints == nil {
+	if len(hints) == 0 {
 		hints = []string{"etype-info2"}
 	}
 	var pas []rk.PAData
@@ -559,14 +561,18 @@ func (k *KDC) asRepPAData(cp *Principal, req *rk.KDCReq) []rk.PAData {
 		return nil
 	}
 	// a conformant KDC tells the client how to derive the reply key (RFC 4120 5.2.7.5)
-	save := k.Policy.Hints
 	pas := k.hintsFor(cp, req)
-	_ = save
 	var out []rk.PAData
+	has2 := false
 	for _, p := range pas {
 		if p.Type != rk.PAEncTS {
 			out = append(out, p)
 		}
+		has2 = has2 || p.Type == rk.PAETypeInfo2
+	}
+	if !has2 {
+		// RFC 4120 5.2.7.5: ETYPE-INFO2 is how the reply key's salt and parameters reach the client
+		out = append(out, k.hintsWith(cp, req, []string{"etype-info2"})...)
 	}
 	return out
 }
@@ -704,19 +710,32 @@ func (k *KDC) handleTGS(req *rk.KDCReq, rec *ReqRecord, l *taskLog, pt []Perturb
 	if err != nil {
 		return bad(rk.ErrGeneric, "PA-TGS-REQ AP-REQ undecodable: "+err.Error())
 	}
-	// the TGT must be for this realm's TGS: krbtgt/<this realm>, issued by ap.Ticket.Realm
-	if len(ap.Ticket.SName.Names) != 2 || ap.Ticket.SName.Names[0] != "krbtgt" || ap.Ticket.SName.Names[1] != k.Realm {
-		return bad(rk.ErrGeneric, "ticket in PA-TGS-REQ is not a TGT for this realm: "+ap.Ticket.SName.String())
-	}
+	// the ticket must be a TGT for this realm's TGS: krbtgt/<this realm>, issued by ap.Ticket.Realm;
+	// only a renewal may present another ticket of this realm (RFC 4120 3.3.3.1)
 	var tgtKey rk.EncryptionKey
-	if ap.Ticket.Realm == k.Realm {
+	isTGT := len(ap.Ticket.SName.Names) == 2 && ap.Ticket.SName.Names[0] == "krbtgt" && ap.Ticket.SName.Names[1] == k.Realm
+	switch {
+	case !isTGT:
+		if req.Options&rk.Bit(rk.FlagRenew) == 0 || ap.Ticket.Realm != k.Realm {
+			return bad(rk.ErrGeneric, "ticket in PA-TGS-REQ is not a TGT for this realm: "+ap.Ticket.SName.String())
+		}
+		p := k.DB[ap.Ticket.SName.String()]
+		if p == nil {
+			return bad(rk.ErrSPrincipalUnknown, "ticket to renew is for an unknown principal")
+		}
+		kk, ok := p.KeyFor(k.Realm, int(ap.Ticket.Enc.Etype))
+		if !ok {
+			return bad(rk.ErrGeneric, "no key for etype of the ticket to renew")
+		}
+		tgtKey = kk.Key
+	case ap.Ticket.Realm == k.Realm:
 		p := k.DB["krbtgt/"+k.Realm]
 		kk, ok := p.KeyFor(k.Realm, int(ap.Ticket.Enc.Etype))
 		if !ok {
 			return bad(rk.ErrGeneric, "no krbtgt key for etype")
 		}
 		tgtKey = kk.Key
-	} else {
+	default:
 		peer := k.Peers[ap.Ticket.Realm]
 		if peer == nil {
 			return bad(rk.ErrGeneric, "TGT from unknown realm "+ap.Ticket.Realm)
